@@ -50,6 +50,12 @@ def c_min(x, y):
     return np.where(x.real > y.real, y, x)
 
 
+def c_log1p(z):
+    """log(1 + z) for complex z, accurate also for small |z| (np.log1p is not for complex input)."""
+    x, y = np.real(z), np.imag(z)
+    return 0.5 * np.log1p(x * (2 + x) + y * y) + 1j * np.arctan2(y, 1 + x)
+
+
 def c_abs(z):
     if np.all(np.iscomplex(z)):
         return np.where(np.real(z) >= 0, z, -z)
@@ -339,7 +345,7 @@ class Bicomplex(object):
         u = 1 + z1
         # log|1 + z|: the log1p form is accurate for small z, the plain form close to the singularity z = -1
         log_mod = np.where(np.abs(z1) < 0.5,
-                           0.5 * np.log1p(z1 * (2 + z1) + z2 * z2),
+                           0.5 * c_log1p(z1 * (2 + z1) + z2 * z2),
                            0.5 * np.log(u * u + z2 * z2 + _TINY))
         return Bicomplex(log_mod, self.arg_c1p())
 
@@ -392,7 +398,9 @@ class Bicomplex(object):
         # arcsinh is odd: evaluate z + sqrt(z**2 + 1) without cancellation for Re(z) < 0
         sign = np.where(self.z1.real < 0, -1.0, 1.0)
         z = self * sign
-        return (z + (z * z + 1) ** 0.5).log() * sign
+        z_2 = z * z
+        # log(z + sqrt(z**2 + 1)) written with log1p to keep the accuracy for small |z|
+        return (z + z_2 / (1 + (z_2 + 1) ** 0.5)).log1p() * sign
 
     def arctanh(self):
         return 0.5 * (((1 + self) / (1 - self)).log())
